@@ -895,6 +895,18 @@ class StepCtx:
             m = re.search(r"Range<(\w+)>", callee)
             signed = m.group(1).startswith("i")
             has = fold((rng["start"] < rng["end"]) if signed else z3.ULT(rng["start"], rng["end"]))
+            # Spin-phase abstraction (signal.rs only): the bounded polling loops `for _ in 0..256 / 0..32` of the wait
+            # functions may end after any number of iterations (a fresh solver variable per evaluation).  Nothing after
+            # such a loop depends on its trip count, so this over-approximates "the peer is slow" and lets a K-step
+            # unrolling reach the park path, which 256 visible loads would otherwise push out of every bound.
+            if "ignal" in f.name and z3.is_bv_value(rng["end"]) and not z3.is_false(has):
+                try:
+                    endv = rng["end"].as_long()
+                except Exception:
+                    endv = 0
+                if endv >= 16:
+                    cut = run.fresh_bool("spincut_%d_%d" % (self.t, self.i))
+                    has = z3.Not(cut) if z3.is_true(has) else z3.And(has, z3.Not(cut))
             w = rng["start"].size()
             if is_val(has):
                 nstart = fold(rng["start"] + 1) if z3.is_true(has) else rng["start"]
